@@ -166,6 +166,12 @@ func booleanSection(r *vlib.Run, k *kit, nCases int) {
 	r.Section("boolean"+k.tag, nCases, vlib.SectionOpts{}, func(c0 *vlib.Case) {
 		c := newCase(c0)
 		defer c.flush()
+		defer func() {
+			c.Count(k.tag+".bool.optimize_calls_with_operand_list_snapshot", optimizeChecked.Swap(0))
+			if n := optimizeReordered.Swap(0); n > 0 {
+				c.Violation(k.pkg+".JoinedSolid.Optimize/operand-list-unchanged", fmt.Sprintf("after %d Optimize() calls the caller's operand list was reordered or overwritten (a SolidMux or StackSolids built over the same list no longer matches it)", n), nil)
+			}
+		}()
 		rng := c.Rng
 		dyadic := rng.Intn(2) == 0
 		b := &builder{k: k, rng: rng, dyadic: dyadic}
